@@ -188,10 +188,12 @@ CLAIMS = {
               "EVERY prefix of the journal is materialised and opened by the real recovery code in a fresh process, judged by "
               "the oracle CrashOK (opens; contiguous; a log that existed; everything acknowledged-and-flushed present; "
               "metadata written at some point; applied index inside the log) and probed for usability (append, restart, "
-              "re-read). Lean (Props/C04.lean) proves the part the single-file model carries: operations that issue one file "
-              "write are atomic, both crash points hold a well-formed file and recover exactly (C02's invariant), the "
-              "recovery's repair step is the identity on complete files. Found and fixed: F24 (torn index step), F25 (index "
-              "entry before its record), F26 (file before catalogue)."),
+              "re-read). Lean (Props/C04.lean) proves what the single-file byte model carries: operations that issue one file "
+              "write are atomic and both crash points recover exactly (C02's invariant); the one two-write operation of a "
+              "log file, the append that completes an index step, recovers from the crash point between its writes to the "
+              "file the complete append produces, for any number of earlier index entries and record sizes (torn_index_step, "
+              "through the repair added by fix F24); the repair is the identity on complete files. Found and fixed: F24 (torn "
+              "index step), F25 (index entry before its record), F26 (file before catalogue)."),
         note=("machine-checked proof does not decide this property: the crash points of the multi-write operations "
               "(index step, truncation, rollover, multi-file truncation) are interleavings of four actors' file writes that "
               "vary from run to run, so the check enumerates the journals the real code produces; what is trusted: the "
